@@ -344,7 +344,7 @@ QUICK = {
     'C16': ['c16_attackers_exact_w_by_white', 'c16_attackers_exact_w_by_black', 'c16_attackers_exact_b_by_white', 'c16_attackers_exact_b_by_black',
             'c16_check_queries_exact_w'],
     'C17': ['c17_walker_s5_p3_concrete_nne_1', 'c17_walker_s0_p3_concrete_n_1'],
-    'C18': ['c18_mirror_move_v_w_ep', 'c18_mirror_outcome_v_w'],
+    'C18': ['c18_mirror_outcome_v_w', 'c18_mirror_outcome_h_b'],
     'C19': ['c15_bishop_exact', 'c16_attackers_exact_w_by_black', 'c06_semilegal_validator_b_castling', 'c06_semilegal_validator_w_ep',
             'c03_make_unmake_b_pspecial', 'c11_validate_accept_b'],
 }
